@@ -77,7 +77,99 @@ mut("C14", "first_byte_sequence_dropped", SE+"marshal.go", '''		bs, err := hexut
 		}''')
 mut("C14", "checkin_key_std_base64", SE+"marshal.go", "data, err := base64.RawURLEncoding.DecodeString(val)", "data, err := base64.RawStdEncoding.DecodeString(val)")
 
+# ---- harmless edits (must-pass corpus): semantics-preserving changes that must NOT raise an alarm ----
+H = []
+def harm(prop, name, file, old, new, all=False):
+    H.append((prop, name, file, old, new, all))
+
+harm("C14", "rename_accumulator", SE+"marshal.go", "hexstrings", "parts", True)
+harm("C14", "log_line_in_decoder", SE+"marshal.go", """	v, err := strconv.ParseUint(val, 10, 64)
+	if err != nil {""", """	v, err := strconv.ParseUint(val, 10, 64)
+	_ = len(val)
+	if err != nil {""")
+harm("C15", "rename_ranges", "rolling-shutter/medley/syncranges.go", "ranges", "out", True)
+harm("C12", "rename_result_map", "rolling-shutter/app/powermap.go", """	res := make(Powermap)
+
+	// Remove old keys
+	for v := range oldpm {
+		_, ok := newpm[v]
+		if !ok {
+			res[v] = 0
+		}
+	}
+
+	// Update new keys
+	for v, p := range newpm {
+		if oldpm[v] != p {
+			res[v] = p
+		}
+	}
+
+	return res""", """	diff := make(Powermap)
+
+	// Remove old keys
+	for v := range oldpm {
+		_, ok := newpm[v]
+		if !ok {
+			diff[v] = 0
+		}
+	}
+
+	// Update new keys
+	for v, p := range newpm {
+		if oldpm[v] != p {
+			diff[v] = p
+		}
+	}
+
+	return diff""")
+harm("C02", "rename_collected_events", SS+"newblock.go", "eventsToDecrypt", "due", True)
+harm("C02", "reordered_independent_statements", SS+"newblock.go", """	coreKeyperDB := corekeyperdatabase.New(kpr.dbpool)
+	serviceDB := servicedatabase.New(kpr.dbpool)
+
+	firedTriggers, err :=""", """	serviceDB := servicedatabase.New(kpr.dbpool)
+	coreKeyperDB := corekeyperdatabase.New(kpr.dbpool)
+
+	firedTriggers, err :=""")
+harm("C02", "extra_debug_log", SS+"newblock.go", """	if !decryptable {
+		return false, nil
+	}""", """	if !decryptable {
+		log.Debug().Int64("keyper-set-index", event.Eon).Msg("not decryptable")
+		return false, nil
+	}""")
+harm("C17", "extracted_helper", SS+"eventtrigger.go", """func (r *LogValueRef) IsTopic() bool {""", """func isTopicOffset(offset uint64) bool {
+	return offset < 4
+}
+
+func (r *LogValueRef) IsTopic() bool {""")
+harm("C19", "rename_gas_counter", "rolling-shutter/keyperimpl/gnosis/newslot.go", "gas", "usedGas", "word")
+harm("C20", "rename_loop_row", "rolling-shutter/keyper/eonpkhandler.go", "eonPublicKey ", "pendingKey ", "ident:eonPublicKey")
+harm("C06", "rename_signature_index", "rolling-shutter/keyperimpl/gnosis/handlers.go", "signatureIndex", "sigIdx", True)
+harm("C01", "extra_log_on_duplicate", "rolling-shutter/keyper/epochkg/epochkg.go", """func (epochkg *EpochKG) addEpochSecretKeyShare(share *EpochSecretKeyShare) error {""", """func (epochkg *EpochKG) addEpochSecretKeyShare(share *EpochSecretKeyShare) error {
+	_ = share.Sender""")
+harm("C10", "comment_and_blank_lines", "rolling-shutter/app/app.go", """func (app *ShutterApp) DeliverTx(req abcitypes.RequestDeliverTx) abcitypes.ResponseDeliverTx {""", """// DeliverTx executes one transaction of a block.
+//
+// (documentation only)
+
+func (app *ShutterApp) DeliverTx(req abcitypes.RequestDeliverTx) abcitypes.ResponseDeliverTx {""")
+harm("C14", "range_loop_as_index_loop", SE+"marshal.go", """	var hexstrings []string
+	for _, a := range v {
+		hexstrings = append(hexstrings, hexutil.Encode(a))
+	}""", """	var hexstrings []string
+	for i := 0; i < len(v); i++ {
+		hexstrings = append(hexstrings, hexutil.Encode(v[i]))
+	}""")
+harm("C02", "range_loop_as_index_loop", SS+"messagingmiddleware.go", """	for _, key := range keys.Keys {
+		eons = append(eons, int64(keys.Eon))
+		identities = append(identities, key.IdentityPreimage)
+	}""", """	for i := 0; i < len(keys.Keys); i++ {
+		eons = append(eons, int64(keys.Eon))
+		identities = append(identities, keys.Keys[i].IdentityPreimage)
+	}""")
+harm("C09", "rename_vote_histogram", "rolling-shutter/app/voting.go", "numVotes", "tally", True)
+
 def main():
+    import re
     n = 0
     for prop, name, file, old, new in M:
         src = open(os.path.join("/repo", file)).read()
@@ -88,7 +180,27 @@ def main():
         os.makedirs("/verif/selftest/local/" + prop, exist_ok=True)
         open("/verif/selftest/local/%s/%s.patch" % (prop, name), "w").write(d)
         n += 1
-    print("wrote", n, "patches")
+    print("wrote", n, "must-fail patches")
+    n = 0
+    for prop, name, file, old, new, mode in H:
+        src = open(os.path.join("/repo", file)).read()
+        if mode is True:
+            dst = re.sub(r"\b%s\b" % re.escape(old), new, src)
+        elif mode == "word":
+            dst = re.sub(r"\b%s\b" % re.escape(old), new, src)
+        elif isinstance(mode, str) and mode.startswith("ident:"):
+            dst = re.sub(r"\b%s\b" % re.escape(mode[6:]), new.strip(), src)
+        else:
+            if src.count(old) != 1:
+                print("SKIP harmless %s/%s: pattern occurs %d times" % (prop, name, src.count(old))); continue
+            dst = src.replace(old, new)
+        if dst == src:
+            print("SKIP harmless %s/%s: no change" % (prop, name)); continue
+        d = "".join(difflib.unified_diff(src.splitlines(True), dst.splitlines(True), "a/" + file, "b/" + file))
+        os.makedirs("/verif/selftest/harmless/" + prop, exist_ok=True)
+        open("/verif/selftest/harmless/%s/%s.patch" % (prop, name), "w").write(d)
+        n += 1
+    print("wrote", n, "harmless patches")
 
 if __name__ == "__main__":
     main()
